@@ -145,8 +145,6 @@ def run_op(name, recursive):
             # ---- probes: every directory of the final tree (directories that arrived from outside: known C02 finding)
             if not problems:
                 for d in [root] + [p for p, isd in sorted(after.items()) if isd]:
-                    if d in moved_in:
-                        continue
                     pr = os.path.join(d, "probe")
                     open(pr, "w").close()
                     evs, seen = collect(q, root)
